@@ -82,3 +82,56 @@ def noncanonical_encodings():
             if decompress(b) is not None:
                 out.append(b)
     return out
+
+
+# ---- ristretto255 helpers (input construction only) -------------------------------------------
+INVSQRT_A_MINUS_D = sqrt_ratio(1, (-1 - D) % P)[1]
+SQRT_AD_MINUS_ONE = sqrt_ratio((-D - 1) % P, 1)[1]
+
+
+def isneg(x):
+    return (x % P) & 1
+
+
+def cabs(x):
+    x %= P
+    return P - x if x & 1 else x
+
+
+def ris_encode(pt):
+    x0, y0 = pt
+    z0, t0 = 1, x0 * y0 % P
+    u1 = (z0 + y0) * (z0 - y0) % P
+    u2 = x0 * y0 % P
+    _, inv = sqrt_ratio(1, u1 * u2 * u2 % P)
+    den1, den2 = inv * u1 % P, inv * u2 % P
+    zinv = den1 * den2 * t0 % P
+    if isneg(t0 * zinv):
+        x, y, deninv = y0 * SQRT_M1 % P, x0 * SQRT_M1 % P, den1 * INVSQRT_A_MINUS_D % P
+    else:
+        x, y, deninv = x0, y0, den2
+    if isneg(x * zinv):
+        y = (-y) % P
+    return list(cabs(deninv * (z0 - y)).to_bytes(32, "little"))
+
+
+def ris_decode(b):
+    n = int.from_bytes(bytes(b), "little")
+    if n >= P or n & 1:
+        return None
+    s = n
+    ss = s * s % P
+    u1, u2 = (1 - ss) % P, (1 + ss) % P
+    v = (-(D * u1 * u1) - u2 * u2) % P
+    ok, inv = sqrt_ratio(1, v * u2 * u2 % P)
+    denx = inv * u2 % P
+    deny = inv * denx * v % P
+    x = cabs(2 * s * denx)
+    y = u1 * deny % P
+    if not ok or isneg(x * y) or y == 0:
+        return None
+    return (x, y)
+
+
+assert ris_encode(B) == list(bytes.fromhex("e2f2ae0a6abc4e71a884a961c500515f58e30b6aa582dd8db6a65945e08d2d76"))
+assert ris_decode(ris_encode(mul(5, B))) is not None
